@@ -53,15 +53,31 @@ def gens(prop):
     return fs
 
 
-# neighbouring properties whose workloads also exercise this property's code: a deterministic sample (every k-th
-# case of their quick generators) is appended, so that a change manifesting only through the neighbour's usage
-# pattern (chunking, reset-before-result, …) is seen by this check too
+# neighbouring properties whose workloads also exercise this property's code: a deterministic sample (every k-th case
+# WITHIN each (op, kind) class of their quick generators, the first of each class always kept — see `thin`) is appended,
+# so that a change manifesting only through the neighbour's usage pattern (chunking, reset-before-result, …) is seen by
+# this check too
 ALSO = {
     "C01": {"C02": 50}, "C02": {"C01": 10}, "C03": {"C04": 4}, "C04": {"C03": 4},
     "C05": {"C09": 20}, "C06": {"C07": 10, "C05": 4, "C03": 3}, "C07": {"C06": 10, "C05": 6, "C03": 6},
     "C08": {"C09": 4}, "C09": {"C08": 3, "C05": 10}, "C10": {"C09": 20, "C08": 5},
     "C12": {"C15": 20}, "C13": {"C14": 5, "C15": 30}, "C14": {"C13": 3, "C15": 30}, "C15": {"C12": 10, "C13": 5, "C14": 5},
 }
+
+
+def thin(cases, k, keep=None):
+    """every k-th case WITHIN each (op, kind) class, always keeping the first of each class.  (A global `i % k` stride
+    aliases with generators that cycle through their kinds: whole kinds and whole ops disappeared from the reused
+    workloads.)  `keep(line, kind)` = False drops a case before it is counted."""
+    seen = {}
+    for line, kind in cases:
+        if keep is not None and not keep(line, kind):
+            continue
+        key = (line.split(" ", 1)[0], kind)
+        n = seen.get(key, 0)
+        seen[key] = n + 1
+        if n % k == 0:
+            yield (line, kind)
 
 
 def make_gen(prop, only=None, also=True):
@@ -73,12 +89,11 @@ def make_gen(prop, only=None, also=True):
                 yield (line, f"{name}:{kind}")
         if also:
             for other, k in ALSO.get(prop, {}).items():
-                i = 0
-                for name, f in gens(other):
-                    for line, kind in f("quick", rng):
-                        if i % k == 0:
+                def neighbour():
+                    for name, f in gens(other):
+                        for line, kind in f("quick", rng):
                             yield (line, f"{other}/{name}:{kind}")
-                        i += 1
+                yield from thin(neighbour(), k)
     return gen
 
 
